@@ -20,6 +20,11 @@ def ws6 (i : Nat) : Bytes :=
   if i == 1 then [32] else if i == 2 then [9] else if i == 3 then [10] else if i == 4 then [13]
   else if i == 5 then [11] else []
 
+/-- First choice of a list (0 when exhausted). -/
+def hd0 : List Nat → Nat
+  | [] => 0
+  | c :: _ => c
+
 /-! ## ASCIIHex -/
 
 def hexDigitB (n : Nat) (upper : Bool) : UInt8 :=
@@ -32,8 +37,8 @@ def ahxEncByte (c : Nat) (b : UInt8) (dropLo : Bool) : Bytes :=
 
 def ahxEncGo : List Nat → Bool → Bytes → Bytes
   | _, _, [] => []
-  | cs, t2, [b] => ahxEncByte (cs.headD 0) b (t2 && b.toNat % 16 == 0)
-  | cs, t2, b :: b' :: rest => ahxEncByte (cs.headD 0) b false ++ ahxEncGo cs.tail t2 (b' :: rest)
+  | cs, t2, [b] => ahxEncByte (hd0 cs) b (t2 && b.toNat % 16 == 0)
+  | cs, t2, b :: b' :: rest => ahxEncByte (hd0 cs) b false ++ ahxEncGo cs.tail t2 (b' :: rest)
 
 /-- `tail`: 0 = `>`; 1 = no EOD marker; 2 = `>` and a final `0` digit left out. -/
 def ahxEnc (cs : List Nat) (tail : Nat) (x : Bytes) : Bytes :=
@@ -52,11 +57,11 @@ def be32val (a b c d : UInt8) : Nat :=
 space after the group.  A final group of n < 4 bytes gives n+1 digits. -/
 def a85Body : List Nat → Bytes → Bytes
   | cs, a :: b :: c :: d :: rest =>
-    (if be32val a b c d == 0 && cs.headD 0 % 2 == 1 then [122] else a85digits (be32val a b c d)) ++
-      ws6 (cs.headD 0 / 2 % 6) ++ a85Body cs.tail rest
-  | cs, [a, b, c] => (a85digits (be32val a b c 0)).take 4 ++ ws6 (cs.headD 0 / 2 % 6)
-  | cs, [a, b] => (a85digits (be32val a b 0 0)).take 3 ++ ws6 (cs.headD 0 / 2 % 6)
-  | cs, [a] => (a85digits (be32val a 0 0 0)).take 2 ++ ws6 (cs.headD 0 / 2 % 6)
+    (if be32val a b c d == 0 && hd0 cs % 2 == 1 then [122] else a85digits (be32val a b c d)) ++
+      ws6 (hd0 cs / 2 % 6) ++ a85Body cs.tail rest
+  | cs, [a, b, c] => (a85digits (be32val a b c 0)).take 4 ++ ws6 (hd0 cs / 2 % 6)
+  | cs, [a, b] => (a85digits (be32val a b 0 0)).take 3 ++ ws6 (hd0 cs / 2 % 6)
+  | cs, [a] => (a85digits (be32val a 0 0 0)).take 2 ++ ws6 (hd0 cs / 2 % 6)
   | _, [] => []
 
 /-- Framing `(mode, a, b, c)`: mode 0 = nothing, 1 = `~`, 2 = `<~`, with white space choices. -/
